@@ -506,3 +506,15 @@ Definition PartL (p : rpart) (s : str) : Prop :=
 Inductive PartsL : list rpart -> str -> Prop :=
 | PsNil : PartsL [] []
 | PsCons : forall p ps s1 s2, PartL p s1 -> PartsL ps s2 -> PartsL (p :: ps) (s1 ++ s2).
+
+(* The same languages written the way the expression is: a run of class characters / pct-triplets, then at most k
+   groups "separator, run" (Proofs/UriTemplateProofs.v: TailL_is_the_expression, BodyL_is_the_expression). *)
+Inductive UnitsL (cls : N -> bool) : str -> Prop :=
+| ULNil : UnitsL cls []
+| ULChr : forall c s, cls c = true -> UnitsL cls s -> UnitsL cls (c :: s)
+| ULPct : forall h1 h2 s, is_hex h1 = true -> is_hex h2 = true -> UnitsL cls s -> UnitsL cls (37 :: h1 :: h2 :: s).
+
+Inductive SepsL (cls : N -> bool) (sep : N) : option nat -> str -> Prop :=
+| SLNil : forall k, SepsL cls sep k []
+| SLConsN : forall u s, UnitsL cls u -> SepsL cls sep None s -> SepsL cls sep None (sep :: u ++ s)
+| SLConsS : forall k u s, UnitsL cls u -> SepsL cls sep (Some k) s -> SepsL cls sep (Some (S k)) (sep :: u ++ s).
